@@ -1,11 +1,26 @@
 #!/bin/sh
-# tools_try_mutant.sh <patch.diff> <PROP> [more PROPs...]: apply a seeded change to /repo, run the quick checks, undo it.
-# Refuses to run when /repo has uncommitted changes of its own.
-patch="$1"; shift
+# tools_try_mutant.sh <patch.diff> <PROP> [more PROPs...]: apply a seeded change, run the quick checks, undo it.
+# With NOLEAN=1 the change is applied to a scratch copy of /repo's working tree (ELIOT_REPO points the harness at it), so several
+# runs can go on at once and /repo is never touched.  Without it the change is applied to /repo itself (one run at a time, under a
+# lock) and the full check, Lean stage included, runs as it would for anyone else; refuses when /repo has changes of its own.
+patch=$(readlink -f "$1"); shift
+if [ -n "$NOLEAN" ]; then
+  tmp=$(mktemp -d /tmp/mutrun.XXXXXX)
+  git -C /repo ls-files -z | (cd /repo && xargs -0 cp --parents -t "$tmp")
+  (cd "$tmp" && mkdir .evidence && git init -q . && git apply "$patch") || { echo "patch does not apply"; rm -rf "$tmp"; exit 2; }
+  for p in "$@"; do
+    out=$(cd /verif && VERIF_EVIDENCE_DIR="$tmp/.evidence" ELIOT_REPO="$tmp" bin/check "$p" --no-lean 2>&1 | grep -v "^KNOWN-FINDING" | tail -2 | tr '\n' ' ')
+    echo "$p: $out"
+  done
+  rm -rf "$tmp"
+  exit 0
+fi
+exec 9>/tmp/mutant.lock
+flock 9
 if [ -n "$(git -C /repo status --porcelain --untracked-files=no)" ]; then echo "refusing: /repo has uncommitted changes"; exit 2; fi
 git -C /repo apply "$patch" || { echo "patch does not apply"; exit 2; }
 for p in "$@"; do
-  out=$(cd /verif && bin/check "$p" ${NOLEAN:+--no-lean} 2>&1 | grep -v "^KNOWN-FINDING" | tail -2 | tr '\n' ' ')
+  out=$(cd /verif && bin/check "$p" 2>&1 | grep -v "^KNOWN-FINDING" | tail -2 | tr '\n' ' ')
   echo "$p: $out"
 done
 git -C /repo checkout -- .
